@@ -77,12 +77,17 @@ impl<'a> Iterator for ChannelSpecIterator<'a> {
             if *x == b'!' {
                 self.chars.next();
             }
-            lexical_core::parse_partial(self.chars.as_slice())
-                .map(|(n, len)| {
+            match lexical_core::parse_partial(self.chars.as_slice()) {
+                Ok((n, len)) if len > 0 => {
                     self.chars.nth(len - 1).unwrap();
-                    n
-                })
-                .map_err(|_| ErrorCode::ExpressionError)
+                    Ok(n)
+                }
+                // Not a number (empty dimension or stray character), stop iterating
+                _ => {
+                    self.chars.by_ref().for_each(drop);
+                    Err(ErrorCode::ExpressionError)
+                }
+            }
         })
     }
 }
